@@ -15,7 +15,8 @@ def families(tier, which="ab"):
                 ("b", "{7,9}", "{4,8}", "{1,2}", "{3,4,5}", 2, "Pa3"),
                 ("c", "{5}", "{12}", "{1,3}", "{2}", 2, "Pa3")]
     fams = [("a", "{5}", "{4}", "{1,2}", "{0,2,3,5}", 0, "Pa3"),
-            ("b", "{7}", "{4,8}", "{1,2}", "{3,4}", 2, "Pa3")]
+            ("b", "{7}", "{4,8}", "{1,2}", "{3,4}", 2, "Pa3"),
+            ("c", "{5,7}", "{12}", "{1,2}", "{2,3}", 2, "Pa3")]     # ntheta divisible by 3: the third remainder class of the 3-pass assemblies
     return [f for f in fams if f[0] in which]
 
 
